@@ -59,12 +59,19 @@ class LineCancel:
         self.at = at
         self.count = 0
         self.fired = False
+        self.deferred = 0
         self.where = None
 
     def _global(self, frame, event, arg):
         if event == "call" and frame.f_code.co_filename.startswith(self.root):
             self.count += 1
             if self.at is not None and not self.fired and self.count >= self.at:
+                import signal as _signal
+                if _signal.getsignal(_signal.SIGINT) is not _signal.default_int_handler:
+                    # the code under test has replaced / postponed the SIGINT handler: no KeyboardInterrupt can be
+                    # delivered at this point of a real run - the cancellation arrives at the next point where it can
+                    self.deferred += 1
+                    return None
                 self.fired = True
                 self.where = f"{frame.f_code.co_filename.rsplit('/', 1)[-1]}:{frame.f_code.co_name}"
                 sys.settrace(None)
@@ -278,9 +285,14 @@ def run_command(argv):
     """`python -m graphtage <args>`, in-process: executes graphtage/__main__.py the way `-m` does (runpy, sys.argv set,
     `__name__ == "__main__"`), so that no assumption is made about where `main` lives or how it is called.
     Returns (exit_status, text_python_would_print_to_stderr, escaped_exception)."""
+    import gc
     import runpy
     old = sys.argv
     old_exit = os._exit
+    # runpy executes the BODY of graphtage/__main__.py on every call, a real process executes it once: what a module
+    # body may legitimately set for its process (recursion limit, gc switch) is put back, so that it cannot compound
+    # over the thousands of commands one simulator process runs
+    old_limit, old_gc = sys.getrecursionlimit(), gc.isenabled()
 
     def _simulated_exit(status=0):          # os._exit() would take the simulator down with it
         raise SystemExit(status)
@@ -293,6 +305,11 @@ def run_command(argv):
         finally:
             sys.argv = old
             os._exit = old_exit
+            try:
+                sys.setrecursionlimit(old_limit)
+            except (RecursionError, ValueError):
+                pass
+            (gc.enable if old_gc else gc.disable)()
     except SystemExit as e:
         ret = e.code
     except BaseException as e:             # noqa: an uncaught exception: Python prints a traceback and exits 1
